@@ -96,7 +96,10 @@ class DefRuntime:
     def build_member(self, m: dict) -> Any:
         ic = self.ic
         kind = m["kind"]
-        if kind in ("fn", "prop"):
+        if kind == "fn" and self.hist.get("async_members") and m["name"] != "__repr__":
+            async def f(self: Any) -> Any:  # type: ignore
+                return None
+        elif kind in ("fn", "prop"):
             def f(self: Any) -> Any:
                 return None
         else:
